@@ -35,7 +35,7 @@ LEVEL_TEXT = (
     "section address + shifted offset) and by an independent append-with-padding model that decides which inputs must be "
     "rejected; memory sizes sit on the model's boundary so that off-by-one errors in padding or in the overflow test show."
 )
-REGISTER = False
+REGISTER = True
 
 
 # ---------------------------------------------------------------------------
